@@ -43,6 +43,10 @@ def frame_base():
 def beh_scenario(beh, idx):
     """A behaviour of Frame.tla (TLC simulation of the closed model) -> steps of the disruption driver."""
     pools, nodes, pods = frame_base()
+    if idx % 2 == 1:      # p2 also REQUIRES hostname anti-affinity against p1 (implied by their shared host port: nothing else changes)
+        pods[1]["ext"]["antiAffinity"] = "p1"
+    if idx % 3 == 1:      # p3 needs an extended resource only a capacity NodeOverlay provides
+        pods[2]["ext"]["widgets"] = "1"
     by = {p["name"]: p for p in pods}
     steps = []
     for st in beh["steps"]:
@@ -79,12 +83,57 @@ def beh_scenario(beh, idx):
         else:
             raise ValueError("unknown Frame.tla step %r" % st)
     opts = {}
+    overlays = []
+    if idx % 2 == 1:
+        # n2 (which runs p2, see above) lacks the hostname label - the kubelet has not set it yet -: the simulation resolves the
+        # domains of a bound pod with required anti-affinity from the LIVE node
+        nodes[1]["dropLabels"] = ["hostname"] if idx % 4 == 1 else ["hostname", "arch"]
+    if idx % 3 == 1:
+        # NodeOverlay feature gate: a price overlay from the start, a capacity overlay appearing (then changing) in the middle -
+        # its first application falls into whatever simulation / pass comes next
+        opts["nodeOverlay"] = True
+        overlays = [overlay("ov-price", [("karpenter.sh/capacity-type", "In", ["spot"])], priceAdjustment="-10%", weight=5)]
+        cap = overlay("ov-cap", [("karpenter.sh/nodepool", "In", ["fp"])], capacity={"example.com/widgets": "8"})
+        steps.insert(len(steps) // 3, {"a": "SetOverlay", "overlay": cap})
+        steps.insert(2 * len(steps) // 3, {"a": "SetOverlay", "overlay": dict(cap, capacity={"example.com/widgets": "16", "example.com/gadgets": "2"})})
     if idx % 3 == 2:      # CapacityBuffer virtual pods: long-lived pod objects in a cache shared by every pass and simulation
         steps.insert(0, buffer_step("buf", 2, {"requireZones": "zone-x|zone-b|zone-a", "preferZone": "zone-c", "spreadZone": "buf"}))
         opts["capacityBuffer"] = True
     sc = dc.scenario("beh:%d" % idx, pools, nodes, pods, [], steps, {"kind": "beh", "idx": idx}, options=opts)
     sc["catalog"] = catalog()
+    if overlays:
+        sc["overlays"] = overlays
     return sc
+
+
+def overlay(name, reqs, weight=0, price="", priceAdjustment="", capacity=None):
+    """A NodeOverlay of the disruption driver (requirements as (key, op, values))."""
+    o = {"name": name, "requirements": [{"key": k, "op": op, "values": list(v)} for k, op, v in reqs]}
+    if weight:
+        o["weight"] = weight
+    if price:
+        o["price"] = price
+    if priceAdjustment:
+        o["priceAdjustment"] = priceAdjustment
+    if capacity:
+        o["capacity"] = dict(capacity)
+    return o
+
+
+def random_overlay(rng, name, pools=("pa", "pb")):
+    sel = rng.choice([[("karpenter.sh/nodepool", "In", [rng.choice(pools)])], [("node.kubernetes.io/instance-type", "In", [rng.choice(["small", "medium", "large"])])],
+                      [("topology.kubernetes.io/zone", "In", [rng.choice(["zone-a", "zone-b"])])], [("karpenter.sh/capacity-type", "In", [rng.choice(["spot", "on-demand"])])],
+                      [("node.kubernetes.io/instance-type", "NotIn", ["small"]), ("karpenter.sh/nodepool", "In", [rng.choice(pools)])], []])
+    kind = rng.choice(["cap", "cap", "price", "both"])
+    kw = {"weight": rng.choice([0, 0, 3, 10])}
+    if kind in ("cap", "both"):
+        kw["capacity"] = rng.choice([{"example.com/widgets": "8"}, {"example.com/widgets": "4", "example.com/gadgets": "2"}, {"example.com/gadgets": "1"}])
+    if kind in ("price", "both"):
+        if rng.random() < 0.5:
+            kw["priceAdjustment"] = rng.choice(["-10%", "+25%", "-0.01", "+0.5"])
+        else:
+            kw["price"] = rng.choice(["0.01", "0.3", "5"])
+    return overlay(name, sel, **kw)
 
 
 def buffer_step(name, n, ext, cpu=700):
@@ -121,7 +170,10 @@ EXTS = [{}, {"hostPort": "8080"}, {"hostPort": "9090"}, {"preferZone": "zone-b"}
         {"requireZones": "zone-x|zone-a|zone-b"}, {"requireZones": "zone-x|zone-y|zone-b"}, {"requireZones": "zone-b|zone-a"},
         {"requireZones": "zone-x|zone-a", "preferZone": "zone-c"}, {"prefAntiAffinity": "web"}, {"prefAffinity": "db"},
         {"spreadKeys": "web"}, {"spreadZone": "web", "prefAntiAffinity": "web", "requireZones": "zone-x|zone-b|zone-a"},
-        {"requireZones": "zone-x|zone-a|zone-b", "hostPort": "8080", "spreadZone": "db"}]
+        {"requireZones": "zone-x|zone-a|zone-b", "hostPort": "8080", "spreadZone": "db"},
+        # required hostname anti-affinity (the scheduler tracks the inverse on the LIVE node of every bound pod that has one)
+        {"antiAffinity": "db"}, {"antiAffinity": "web", "prefAntiAffinity": "db"}, {"antiAffinity": "web", "spreadZone": "web"}]
+DROPS = [["hostname"], ["hostname"], ["hostname"], ["hostname", "zone"], ["zone"], ["arch", "os"], ["hostname", "arch", "os", "zone"]]
 
 
 def option_grid(sc):
@@ -161,8 +213,19 @@ def rich_scenario(rng, name):
             labels = {"app": rng.choice(["web", "web", "db"])}
             pods.append(dc.pod("p%d-%d" % (j, q), nm, cpu=rng.choice([200, 500, 900, 1500]), labels=labels,
                                owner=rng.choice(["replicaset", "replicaset", "statefulset"]), ext=ext))
+    # nodes whose Node object LACKS well-known labels (the kubelet has not set them yet); one that lacks the hostname label runs a pod
+    # with required anti-affinity (the scheduler resolves that pod's domains from the live node)
+    for j, n in enumerate(nodes):
+        if rng.random() < 0.3:
+            n["dropLabels"] = list(rng.choice(DROPS))
+            if "hostname" in n["dropLabels"] and rng.random() < 0.8:
+                pods.append(dc.pod("g%d" % j, n["name"], cpu=100, labels={"app": rng.choice(["web", "db", "guard"])},
+                                   ext={"antiAffinity": rng.choice(["web", "db", "none"])}))
+    overlays_on = rng.random() < 0.4
     for q in range(rng.choice([0, 0, 1, 2])):
         ext = dict(rng.choice(EXTS))
+        if overlays_on and rng.random() < 0.5:
+            ext["widgets"] = rng.choice(["1", "2", "6"])
         if "pvc" in ext:
             ext["pvc"] = "v-pend-%d" % q
         pods.append(dc.pod("pend%d" % q, "", cpu=rng.choice([200, 900, 2500]), labels={"app": "web"}, ext=ext))
@@ -201,12 +264,75 @@ def rich_scenario(rng, name):
                 p["node"] = rng.choice(names)
                 steps.append({"a": "SetPod", "pod": p})
     opts = {"spotToSpot": rng.random() < 0.3}
+    overlays = []
+    if overlays_on:
+        # NodeOverlay feature gate: overlays from the start and overlays that appear / change / vanish between the simulations (the
+        # FIRST application of a changed overlay falls into the next bracketed call)
+        opts["nodeOverlay"] = True
+        overlays = [random_overlay(rng, "ov%d" % i) for i in range(rng.choice([0, 1, 2]))]
+        for i in range(rng.choice([1, 2, 3])):
+            pos = rng.randint(0, max(0, len(steps) - 1))
+            if rng.random() < 0.2:
+                steps.insert(pos, {"a": "DeleteOverlay", "value": "ov%d" % rng.randrange(3)})
+            else:
+                steps.insert(pos, {"a": "SetOverlay", "overlay": random_overlay(rng, "ov%d" % rng.randrange(3))})
+        for p in pods:
+            if p["node"] and rng.random() < 0.25:
+                p["ext"] = dict(p.get("ext") or {}, widgets=rng.choice(["1", "2"]))
     if rng.random() < 0.3:
         ext = dict(rng.choice([e for e in EXTS if e and "pvc" not in e and "hostPort" not in e]))
         steps.insert(0, buffer_step("buf", rng.choice([1, 2, 3]), ext, cpu=rng.choice([300, 900, 2500])))
         opts["capacityBuffer"] = True
     sc = dc.scenario(name, pools, nodes, pods, [], steps, {"kind": "rich"}, options=opts)
+    if overlays:
+        sc["overlays"] = overlays
     sc["catalog"] = catalog(rng.choice([("large", "small", "medium"), ("medium", "large", "small"), ("large", "medium", "small")]))
+    return sc
+
+
+# ------------------------------------------------------------------ scheduling-driver scenarios: NodeOverlays, nodes without hostname
+def sched_overlays(rng, sc):
+    """NodeOverlays for a scheduling-driver scenario (short keys): they appear right before the provisioning pass."""
+    types = [t["name"] for t in sc["types"]] or ["t0"]
+    pools = [p["name"] for p in sc["pools"]] or ["p0"]
+    zones = sorted({o["zone"] for t in sc["types"] for o in t["offerings"]}) or ["a"]
+    out = []
+    for i in range(rng.choice([1, 1, 2, 3])):
+        reqs = rng.choice([[{"key": "pool", "op": "In", "vals": [rng.choice(pools)], "n": 0}], [{"key": "it", "op": "In", "vals": [rng.choice(types)], "n": 0}],
+                           [{"key": "zone", "op": "In", "vals": [rng.choice(zones)], "n": 0}], [{"key": "ct", "op": "In", "vals": [rng.choice(["spot", "od", "reserved"])], "n": 0}],
+                           [{"key": "it", "op": "NotIn", "vals": [rng.choice(types)], "n": 0}, {"key": "ct", "op": "In", "vals": ["spot", "od"], "n": 0}], []])
+        o = {"name": "ov%d" % i, "reqs": reqs, "weight": rng.choice([0, 0, 2, 9])}
+        kind = rng.choice(["cap", "cap", "price", "both"])
+        if kind in ("cap", "both"):
+            o["capacity"] = rng.choice([{"example.com/widgets": "8"}, {"example.com/widgets": "4", "example.com/gadgets": "2"}])
+        if kind in ("price", "both"):
+            if rng.random() < 0.5:
+                o["priceAdjustment"] = rng.choice(["-10%", "+25%", "-0.01", "+0.5"])
+            else:
+                o["price"] = rng.choice(["0.01", "0.3", "5"])
+        out.append(o)
+    return out
+
+
+def sched_frame_variant(rng, sc, i):
+    """Every third scheduling scenario gets NodeOverlays; every second one has Node objects without the hostname label, each running a
+    pod with required hostname anti-affinity (in place: the number of scenarios stays the same)."""
+    if i % 3 == 0:
+        sc["overlays"] = sched_overlays(rng, sc)
+        sc["name"] += "+ov"
+    if i % 2 == 1:
+        hit = False
+        for n in sc["nodes"]:
+            if n["stage"] != "claimonly" and rng.random() < 0.6:
+                n["noHost"] = True
+                hit = True
+                labels = dict(rng.choice([p.get("labels") or {} for p in sc["pods"]] or [{}]))
+                sc["pods"].append({"name": "guard-" + n["name"], "ns": "default", "node": n["name"], "owner": "rs", "cpu": 10, "mem": 8, "created": 0,
+                                   "labels": {"app": "guard"}, "sel": {}, "terms": [], "pref": [], "tol": [], "ports": [], "vols": [], "aff": [],
+                                   "anti": [{"key": "host", "sel": labels or {"app": "guard"}, "ns": [], "nsAll": False, "weight": 0, "nsSel": {}}],
+                                   "prefAff": [], "prefAnti": [], "spread": [], "terminating": False, "phase": ""})
+        if hit:
+            sc["name"] += "+nh"
     return sc
 
 
@@ -278,6 +404,8 @@ def summarise(files):
                 cur["placed_new"] += sum(len(x["pods"]) for x in ev.get("claims", []))
             elif '"e":"Panic"' in line:
                 cur["panics"] += 1
+            elif '"nodeoverlay-error"' in line:
+                cur["overlay_errs"] = cur.get("overlay_errs", 0) + 1
     for s in out:
         s.pop("_call", None)
     return out
